@@ -15,7 +15,7 @@ TRUSTED = [
     "prime-order groups implies non-degenerate everywhere",
     "the pairing code itself (Miller loop, line functions, final exponentiation chains) is not modelled",
 ]
-ASSUMPTIONS = ["BLS12-381 (p381 configuration) and the k = 8, 16, 18, 24 families are not covered (PARTIAL): the specification side is generic in the "
+ASSUMPTIONS = ["the k = 8, 16, 18, 24 families are not covered (PARTIAL); BLS12-381 runs in the p381 configuration: the specification side is generic in the "
                "tower, the harness covers embedding degree 12 in the base configuration only"]
 RULE = ("both pairing-friendly curves, variants map / tatep / weilp / oatep: operands identity, generators, equal/opposite multiples, non-normalised "
         "representations; scalars 0, 1, r-1, r, negative, random; multi-pairings of length 0..5 with identities at arbitrary positions; "
@@ -83,16 +83,23 @@ def gen_lines(rng, st, count):
 
 def streams(ctx, scale=1):
     per = (60 if ctx.tier == "quick" else 1200) * scale
-    ex = pg.exe(ctx, "base")
+    res = []
+    for cfg in ["base", "p381"]:
+        res += _stream(ctx, cfg, per if cfg == "base" else max(40, per // 4))
+    return res
+
+
+def _stream(ctx, cfg, per):
+    ex = pg.exe(ctx, cfg)
     lines = ["cfg"]
-    for cid in IDS["base"]:
+    for cid in (IDS.get(cfg) or pg.pairing_ids(ex)):
         kv = pg.info(ex, cid)
         if "p" not in kv:
             continue
         st = pg.Setting(kv)
         lines.append("pc_param %d" % cid)
         lines += gen_lines(ctx.rng, st, per)
-    return [{"name": "pp-base", "cfg": "base", "exe": ex, "lines": lines}]
+    return [{"name": "pp-" + cfg, "cfg": cfg, "exe": ex, "lines": lines}]
 
 
 def search_streams(ctx, mfail):
